@@ -43,7 +43,9 @@ CHECKS = {
         text=("Fault enumeration inside the model (TLC: every callback invocation of every behaviour may raise; FailureState, Quiescent, "
               "DroppedNeverRun) and on the real code: each scenario is run once per crash point (k-th callback invocation raises) and "
               "continued with further sends; every execution is validated against the spec, so wrong state after failure, a queue "
-              "that is not cleared, a lock that is not released or a swallowed exception make the trace unexplainable."),
+              "that is not cleared, a lock that is not released or a swallowed exception make the trace unexplainable.  The failure "
+              "path is also explored with a second sender around (real threads stepped at line boundaries, <=2 preemptions, validated "
+              "against Dispatch.tla): what the failing call drops stays dropped and nothing is stranded."),
         design_ref="DESIGN.md 5 C04",
         technique="TLA+ spec + TLC exhaustive MC with failure budget + crash-point sweep on the implementation validated by TLC",
     ),
@@ -65,7 +67,10 @@ CHECKS = {
               "variants; it also checks that Dispatch refines the counter abstraction DispatchCore.tla, for which Apalache proves an "
               "inductive invariant implying NothingStranded for 3 senders and an unbounded number of events. Real OS threads stepped at every line boundary of the dispatch code (all schedules with <=2-3 preemptions) and "
               "asyncio tasks stepped one ready handle at a time (all choice sequences) are validated by TLC against Trace_Dispatch.tla; "
-              "TLC-sampled schedules are replayed on real threads by statement label."),
+              "TLC-sampled schedules are replayed on real threads by statement label.  Plans: plain, nested send, failing callback, a "
+              "tolerant machine with a gated sender (its event only exists after the first move: Skip / ignored), a callback-less "
+              "listener attached from inside a callback; the returns of the engine's put() and of queue.clear() are observed through "
+              "the tracer, so the order of acceptance is not inferred."),
         design_ref="DESIGN.md 5 C06",
         technique="TLA+ spec of the dispatch protocol + TLC exhaustive MC + systematic schedule exploration of real threads/tasks validated by TLC",
         note=("Trusted base: TLC; sys.settrace line stepping of real threads and the one-handle-per-iteration event loop (lib/dispatch.py); "
